@@ -48,7 +48,7 @@ fn platform_case(p: &Value, out: &mut Outcome) {
     let mut data = vec![0u8; dlen];
     r.fill(&mut data);
     let d2 = data.clone();
-    sim::spawn("sender", None, move || {
+    sim::spawn("sender", Some(2), move || {
         let res = tx.send(&data, chans, regs);
         hist::log(if res.is_ok() { "send.ok" } else { "send.err" }, 0, 0, 0, &res.err().map(|e| e.to_string()).unwrap_or_default());
     });
@@ -142,7 +142,8 @@ impl Scenario for C18S {
                 3 => r.range(0, 4 * follow as u64),
                 _ => r.range(0, 3000),
             };
-            sim["faults"] = json!([]);
+            // transient refusals re-split the message and re-send its first packet
+            sim["faults"] = if r.chance(1, 3) { json!((0..r.range(1, 2)).map(|_| json!({"k": "txerr", "pid": 2, "nth": r.below(4), "errno": libc::ENOBUFS})).collect::<Vec<_>>()) } else { json!([]) };
             json!({"sim": sim, "region_lens": lens, "data_len": dlen, "channels": if r.chance(1, 4) { r.range(50, 62) } else { r.range(0, 6) }, "pseed": r.next() >> 4})
         } else {
             let sc = super::lookup(sub).unwrap();
